@@ -76,6 +76,32 @@ def engine_path(kind="plain"):
         lock.close()
 
 
+def fuzzer_path():
+    """libFuzzer binary (clang++-14, ASan + UBSan + hardened libstdc++) that #includes the tree's engine.cpp."""
+    sha = source_hash()
+    d = os.path.join(BUILD, sha)
+    out = os.path.join(d, "engine_fuzz")
+    if os.path.exists(out):
+        return out
+    os.makedirs(d, exist_ok=True)
+    lock = open(os.path.join(BUILD, ".lock-fuzz"), "w")
+    fcntl.flock(lock, fcntl.LOCK_EX)
+    try:
+        if os.path.exists(out):
+            return out
+        tmp = out + ".tmp%d" % os.getpid()
+        cmd = ["clang++-14", "-std=c++14", "-O1", "-g", "-fsanitize=fuzzer,address,undefined", "-fno-sanitize-recover=undefined",
+               "-D_GLIBCXX_ASSERTIONS", "-I", SRC, os.path.join(VERIF, "fuzz", "engine_fuzz.cpp"), "-o", tmp]
+        r = subprocess.run(cmd, capture_output=True, text=True)
+        if r.returncode != 0:
+            raise BuildError("fuzzer build failed:\n" + r.stderr[-3000:])
+        os.replace(tmp, out)
+        return out
+    finally:
+        fcntl.flock(lock, fcntl.LOCK_UN)
+        lock.close()
+
+
 def asan_runtime():
     r = subprocess.run(["g++", "-print-file-name=libasan.so"], capture_output=True, text=True)
     return r.stdout.strip()
